@@ -31,9 +31,18 @@ def type_range(t):
     return None
 
 
+EMPTY_IV = (1, 0)
+# callee-suffix -> forced result interval, set temporarily by analyses that look at one variant of a layout
+ASSUME_CALLS = {}
+
+
 def join(a, b):
     if a is None or b is None:
         return None
+    if a == EMPTY_IV:
+        return b  # empty (the payload range of a value known to be `None`)
+    if b == EMPTY_IV:
+        return a
     return (min(a[0], b[0]), max(a[1], b[1]))
 
 
@@ -163,7 +172,11 @@ class Analysis:
         pk = place_key(p)
         if pk in st:
             return st[pk]
-        if len(pk[1]) >= 2 and pk[1][-2][0] == 'dc' and pk[1][-2][1] in ('Some', 'Ok') and pk[1][-1][0] == 'f':
+        if pk[1] and pk[1][0] == ('deref', ):
+            root = self.root_of_ref(pk)
+            if root != pk and root in st and isinstance(st[root], tuple):
+                return st[root]
+        if len(pk[1]) >= 2 and pk[1][-2][0] == 'dc' and pk[1][-2][1] in ('Some', 'Ok', 'Continue') and pk[1][-1][0] == 'f':
             base = (pk[0], pk[1][:-2])
             if ('some', base) in st:
                 t0 = type_range(self.ty_of_place(p))
@@ -314,6 +327,14 @@ class Analysis:
                 val = rng
         elif k == 'repeat' or k == 'agg' or k == 'ref' or k == 'rawptr':
             val = None
+            if k == 'agg' and rv.get('ak') == 'adt' and rv.get('adt') == 'core::option::Option':
+                # payload range of an Option built here: empty for None (joins away), the operand's range for Some
+                if rv.get('variant') == 'None':
+                    aux['some'] = (1, 0)
+                elif rv.get('variant') == 'Some' and rv['ops']:
+                    pv = self.read_operand(st, rv['ops'][0])
+                    if pv is not None:
+                        aux['some'] = pv
             if k == 'agg' and rv.get('ak') == 'adt' and rv['adt'].endswith('ops::range::Range') and len(rv['ops']) == 2:
                 a0, b0 = self.read_operand(st, rv['ops'][0]), self.read_operand(st, rv['ops'][1])
                 if a0 is not None and b0 is not None:
@@ -323,6 +344,9 @@ class Analysis:
                 self.refs[lk] = place_key(rv['p'])
         elif k == 'discr':
             val = (0, 1 << 16)
+            pty_ = self.ty_of_place(rv['p'])
+            if pty_ and pty_.get('path') == 'core::option::Option' and st.get(('some', place_key(rv['p']))) == EMPTY_IV:
+                val = (0, 0)  # built as `None` on every path reaching here
         else:
             val = rng
         # kill sub-places and auxiliary facts about the overwritten place
@@ -449,7 +473,11 @@ class Analysis:
         args = t['args']
         av = [self.read_operand(st, a) for a in args]
         short = callee.rsplit('::', 1)[-1]
-        if callee in ('core::convert::From::from', 'core::convert::Into::into') and len(args) == 1:
+        forced = next((iv for suf, iv in ASSUME_CALLS.items() if callee.endswith(suf)), None)
+        if forced is not None:
+            # an analysis of one layout variant: the variant predicate is pinned (rules/codec.py)
+            val = forced
+        elif callee in ('core::convert::From::from', 'core::convert::Into::into') and len(args) == 1:
             v = av[0]
             val = clip(v, rng) if (v is not None and rng is not None) else rng
         elif short in ('min', 'max') and len(args) == 2 and callee.startswith(('core::cmp::', 'u', 'i')):
@@ -567,6 +595,14 @@ class Analysis:
             # integer narrowing: the Ok payload is the argument itself (when it fits)
             val = None
             self._set_aux = ('some', av[0])
+        elif callee == 'core::ops::try_trait::Try::branch' and len(args) == 1 and op_place(args[0]) is not None and \
+                ('some', place_key(op_place(args[0]))) in st:
+            # `opt?` / `res?`: the Continue payload is the Some / Ok payload
+            val = None
+            self._set_aux = ('some', st[('some', place_key(op_place(args[0])))])
+        elif callee.endswith('FromResidual::from_residual') and (dty or {}).get('path') == 'core::option::Option':
+            val = None
+            self._set_aux = ('some', EMPTY_IV)  # `None?` yields None
         elif callee == 'char::to_digit' and len(args) == 2:
             val = None
             r = av[1]
@@ -709,7 +745,7 @@ class Analysis:
             return None
         cur = blk
         d = None
-        for _ in range(4):
+        for _ in range(40):
             d = last_def_in_block(self.fn, cur, rp['l'])
             if d is not None:
                 break
@@ -1023,6 +1059,14 @@ class Analysis:
                             self.copy_src[lk] = None
                 if s['k'] == 'assign' and s['rv']['k'] == 'ref' and not s['lhs']['p']:
                     self.refs[place_key(s['lhs'])] = place_key(s['rv']['p'])
+                if s['k'] == 'assign' and s['rv']['k'] == 'use' and not s['lhs']['p']:
+                    p = op_place(s['rv']['a'])
+                    if p is not None and p['p']:
+                        lt = self.fn.local_ty(s['lhs']['l'])
+                        if lt['k'] in ('ref', 'ptr') and place_key(s['lhs']) not in self.refs:
+                            # a copy of a reference stored in a place (closure environment, struct field): it points
+                            # to whatever that stored reference points to
+                            self.refs[place_key(s['lhs'])] = (place_key(p)[0], place_key(p)[1] + (('deref', ), ))
                 if s['k'] == 'assign' and s['rv']['k'] in ('use', 'cast') and not s['lhs']['p']:
                     p = op_place(s['rv']['a'])
                     if p is not None and not p['p']:
@@ -1248,10 +1292,52 @@ class Analysis:
                             continue  # invoked through a modelled combinator with a known argument range
                         cf = self.facts.fns.get(cd)
                         key = ('closure', cd, tuple(sorted(self.ctx.fields.items())))
+                        caps = self.capture_params(bi, s2, cf) if cf is not None else {}
+                        key = ('closure', cd, tuple(sorted(self.ctx.fields.items())), tuple(sorted(caps.items(), key=str)))
                         if cf is not None and key not in self.summaries:
                             self.summaries[key] = (None, None)
-                            Analysis(self.facts, cf, FnCtx({}, self.ctx.fields, self.ctx.used), self.summaries,
+                            Analysis(self.facts, cf, FnCtx(caps, self.ctx.fields, self.ctx.used), self.summaries,
                                      self.depth + 1, collector=self.collector)
+
+    def capture_params(self, blk, stmt, cf):
+        """initial facts for a closure body about the integer values it captures: the closure is built at `stmt` in
+        block blk; capture i is field i of its environment (parameter 1, by reference for Fn / FnMut), itself a
+        reference when the variable is captured by reference"""
+        out = {}
+        st, rel = self.state_before_term(blk)
+        if st is None or cf.argc < 1:
+            return out
+        env_ty = cf.local_ty(1)
+        env_by_ref = bool(env_ty) and env_ty.get('k') == 'ref'
+        for i, o in enumerate(stmt['rv']['ops']):
+            p = op_place(o)
+            if p is None:
+                continue
+            oty = self.ty_of_place(p)
+            by_ref = bool(oty) and oty.get('k') == 'ref'
+            if by_ref:
+                tgt = self.root_of_ref(place_key(p))
+                if tgt == place_key(p):
+                    continue
+                v = st.get(tgt)
+                if v is None:
+                    try:
+                        v = self.read_place(st, key_to_place(tgt))
+                    except Exception:
+                        v = None
+                vty = None
+                try:
+                    vty = self.ty_of_place(key_to_place(tgt))
+                except Exception:
+                    pass
+            else:
+                v = self.read_operand(st, o)
+                vty = oty
+            if v is None or not vty or vty.get('k') != 'int' or v == type_range(vty):
+                continue
+            path = ((('deref', ), ) if env_by_ref else ()) + (('f', i, str(i)), ) + ((('deref', ), ) if by_ref else ())
+            out[(1, path)] = v
+        return out
 
     def compute_established(self):
         """field ranges of `*self` that hold at every Ok exit (refined by the function's own rejecting branches),
